@@ -177,25 +177,39 @@ func MakeTodo(t *rapid.T, c *cfg.Config, label string) string {
 	return "todo-nothing"
 }
 
-// InjectCycle adds references that close a dependency cycle.
+// InjectCycle adds references that close a dependency cycle. Names carry the label, so several injected cycles coexist.
 func InjectCycle(t *rapid.T, c *cfg.Config, label string) string {
-	kind := rapid.SampledFrom([]string{"param-self", "param-pair", "service-self", "service-pair", "tag-loop", "decorator-loop"}).Draw(t, label+"-kind")
+	kind := rapid.SampledFrom([]string{"param-self", "param-pair", "service-self", "service-pair", "tag-loop", "decorator-loop", "param-cycles-hub"}).Draw(t, label+"-kind")
+	n := func(s string) string { return "zz-" + label + "-" + s }
 	switch kind {
 	case "param-self":
-		c.Params = append(c.Params, cfg.Param{Name: "zz-cyc", Val: cfg.Str("x%zz-cyc%")})
+		c.Params = append(c.Params, cfg.Param{Name: n("cyc"), Val: cfg.Str("x%" + n("cyc") + "%")})
 	case "param-pair":
-		c.Params = append(c.Params, cfg.Param{Name: "zz-c1", Val: cfg.Str("%zz-c2%")}, cfg.Param{Name: "zz-c2", Val: cfg.Str("%zz-c1%%%")})
+		c.Params = append(c.Params, cfg.Param{Name: n("c1"), Val: cfg.Str("%" + n("c2") + "%")}, cfg.Param{Name: n("c2"), Val: cfg.Str("%" + n("c1") + "%%%")})
 	case "service-self":
-		c.Services = append(c.Services, cfg.Service{Name: "zz-self", Ctor: cfg.P("fx/lib.NewObj"), Args: []cfg.Val{cfg.Str("@zz-self")}})
+		c.Services = append(c.Services, cfg.Service{Name: n("self"), Ctor: cfg.P("fx/lib.NewObj"), Args: []cfg.Val{cfg.Str("@" + n("self"))}})
 	case "service-pair":
 		c.Services = append(c.Services,
-			cfg.Service{Name: "zz-a", Ctor: cfg.P("fx/lib.NewObj"), Fields: []cfg.Field{{Name: "FieldA", Val: cfg.Str("@zz-b")}}},
-			cfg.Service{Name: "zz-b", Ctor: cfg.P("fx/lib.NewObj"), Calls: []cfg.Call{{Method: "Call1", Args: []cfg.Val{cfg.Str("@zz-a")}}}})
+			cfg.Service{Name: n("a"), Ctor: cfg.P("fx/lib.NewObj"), Fields: []cfg.Field{{Name: "FieldA", Val: cfg.Str("@" + n("b"))}}},
+			cfg.Service{Name: n("b"), Ctor: cfg.P("fx/lib.NewObj"), Calls: []cfg.Call{{Method: "Call1", Args: []cfg.Val{cfg.Str("@" + n("a"))}}}})
 	case "tag-loop":
-		c.Services = append(c.Services, cfg.Service{Name: "zz-t", Ctor: cfg.P("fx/lib.NewObj"), Args: []cfg.Val{cfg.Str("!tagged zz-loop")}, Tags: []cfg.Tag{{Name: "zz-loop"}}})
+		c.Services = append(c.Services, cfg.Service{Name: n("t"), Ctor: cfg.P("fx/lib.NewObj"), Args: []cfg.Val{cfg.Str("!tagged " + n("loop"))}, Tags: []cfg.Tag{{Name: n("loop")}}})
 	case "decorator-loop":
-		c.Services = append(c.Services, cfg.Service{Name: "zz-d", Ctor: cfg.P("fx/lib.NewObj"), Tags: []cfg.Tag{{Name: "zz-dl"}}})
-		c.Decorators = append(c.Decorators, cfg.Decorator{Tag: "zz-dl", Fn: "fx/lib.Decorate", Args: []cfg.Val{cfg.Str("@zz-d")}})
+		c.Services = append(c.Services, cfg.Service{Name: n("d"), Ctor: cfg.P("fx/lib.NewObj"), Tags: []cfg.Tag{{Name: n("dl")}}})
+		c.Decorators = append(c.Decorators, cfg.Decorator{Tag: n("dl"), Fn: "fx/lib.Decorate", Args: []cfg.Val{cfg.Str("@" + n("d"))}})
+	case "param-cycles-hub":
+		// several independent parameter cycles, all first reached from one service (and one decorator)
+		k := rapid.IntRange(2, 4).Draw(t, label+"-hub")
+		hub := cfg.Service{Name: n("hub"), Ctor: cfg.P("fx/lib.NewObj"), Tags: []cfg.Tag{{Name: n("ht")}}}
+		dec := cfg.Decorator{Tag: n("ht"), Fn: "fx/lib.Decorate"}
+		for i := 0; i < k; i++ {
+			p1, p2 := n(fmt.Sprintf("h%da", i)), n(fmt.Sprintf("h%db", i))
+			c.Params = append(c.Params, cfg.Param{Name: p1, Val: cfg.Str("%" + p2 + "%")}, cfg.Param{Name: p2, Val: cfg.Str("-%" + p1 + "%")})
+			hub.Args = append(hub.Args, cfg.Str("%"+p1+"%"))
+			dec.Args = append([]cfg.Val{cfg.Str("%" + p2 + "%")}, dec.Args...)
+		}
+		c.Services = append(c.Services, hub)
+		c.Decorators = append(c.Decorators, dec)
 	}
 	return "cycle:" + kind
 }
